@@ -288,6 +288,18 @@ def rule_b(ctx):
                 outs.add("OUTPUT file")
             else:
                 r.violate("main|open", "main opens a file that is not the OUTPUT argument (%r)" % p, c.loc())
+    # the OUTPUT file is replaced, not overwritten in place: create + write + truncate, all true
+    oo = {}
+    for c in m.calls():
+        nm = c.name() or c.callee or ""
+        if nm.startswith("std::fs::OpenOptions::") and nm.rsplit("::", 1)[-1] in ("create", "write", "truncate", "append", "create_new", "read") and len(c.args) == 2:
+            v = an.trace_operand(m, c.args[1])
+            oo[nm.rsplit("::", 1)[-1]] = v.root[1] if v.root[0] == "const" else "?"
+    if oo.get("create") is True and oo.get("write") is True and oo.get("truncate") is True and not oo.get("append"):
+        r.ok("main|open|create-write-truncate", options={k: str(v) for k, v in oo.items()})
+    else:
+        r.violate("main|open|create-write-truncate", "main opens the OUTPUT file with %s; without create(true).write(true).truncate(true) a shorter result leaves the tail of an "
+                  "earlier, longer file behind, so the file is not exactly the CSS the library returned" % {k: str(v) for k, v in oo.items()}, w.loc())
     if outs == {"stdout", "OUTPUT file"}:
         r.ok(key, sinks=sorted(outs))
     else:
